@@ -273,7 +273,7 @@ def c07(report, tier, seed):
     from . import collection, cli
     covs = [("life", pipeline.run_life_check(report, life_plans(tier), seed, tier)),
             ("collection", collection.run(report, tier, seed, ("coll_completed",), step_props=("C07",))),
-            ("cli", cli.run(report, tier, seed, want=("cli_marks",)))]     # "(completed)" exactly when applicable
+            ("cli", cli.run(report, tier, seed, want=("cli_completed",)))]     # "(completed)" exactly when applicable
     cov = combine(covs)
     cov["trusted_base"] = TRUSTED
     return report.finish(cov, A_LIFE + A_COLL)
